@@ -28,7 +28,21 @@ var skelFuncs = map[string]bool{
 	"KeepBounds": true, "KeepTags": true, "KeepAll": true, "Check": true,
 }
 
-type skel struct{ ev []string }
+// functions added in phase 3 (entry points, copies, observers): EVERY call is an event, with its literal
+// arguments, because what matters there is which function is delegated to and with which constants
+// (`osmpbf.New(ctx, rs, 1)`, `extract(ctx, rs, scanFunc, keep, keepTags)`, the map a loop ranges over)
+var skelAllCalls = map[string]bool{
+	"ExtractFile": true, "ExtractPBF": true, "ExtractXML": true, "ExtractTag": true, "hasTag": true,
+	"copyNode": true, "copyWay": true, "copyRelation": true,
+	"Geom": true, "nodeToPoint": true, "wayToGeom": true, "wayIsClosed": true, "wayToPolygon": true,
+	"wayToLineString": true, "relationToGeom": true, "relationToPolygon": true, "relationToGeometryCollection": true,
+	"tagsToMap": true, "CountTags": true, "Data.CountTags": true, "Less": true,
+}
+
+type skel struct {
+	ev  []string
+	all bool
+}
 
 func (s *skel) add(f string, a ...interface{}) { s.ev = append(s.ev, fmt.Sprintf(f, a...)) }
 
@@ -54,6 +68,12 @@ func (s *skel) expr(e ast.Expr) {
 		case *ast.CallExpr:
 			name := selName(t.Fun)
 			switch {
+			case s.all:
+				as := make([]string, len(t.Args))
+				for i, a := range t.Args {
+					as[i] = exprStr(a)
+				}
+				s.add("call:%s(%s)", name, strings.Join(as, ","))
 			case strings.HasPrefix(name, "hasNeed"):
 				s.add("call:%s", name)
 			case name == "keep":
@@ -67,7 +87,9 @@ func (s *skel) expr(e ast.Expr) {
 				s.add("call:%s", name)
 			}
 		case *ast.IndexExpr:
-			if n := selName(t.X); isDataMap(n) {
+			if n := selName(t.X); s.all {
+				s.add("index:%s", exprStr(t.X))
+			} else if isDataMap(n) {
 				s.add("index:%s", n)
 			}
 		}
@@ -97,6 +119,17 @@ func (s *skel) stmt(st ast.Stmt) {
 	case *ast.AssignStmt:
 		for _, r := range t.Rhs {
 			s.expr(r)
+		}
+		if s.all {
+			ls, rs := []string{}, []string{}
+			for _, l := range t.Lhs {
+				ls = append(ls, exprStr(l))
+			}
+			for _, r := range t.Rhs {
+				rs = append(rs, exprStr(r))
+			}
+			s.add("assign:%s%s%s", strings.Join(ls, ","), t.Tok.String(), strings.Join(rs, ","))
+			return
 		}
 		for i, l := range t.Lhs {
 			if ix, ok := l.(*ast.IndexExpr); ok && isDataMap(selName(ix.X)) {
@@ -181,7 +214,15 @@ func (s *skel) stmt(st ast.Stmt) {
 		s.add("send:%s", selName(t.Chan))
 	case *ast.GoStmt:
 		s.expr(t.Call)
-	case *ast.DeclStmt, *ast.IncDecStmt, *ast.BranchStmt, *ast.EmptyStmt:
+	case *ast.IncDecStmt:
+		if s.all {
+			s.add("incdec:%s%s", exprStr(t.X), t.Tok.String())
+		}
+	case *ast.BranchStmt:
+		if s.all {
+			s.add("branch:%s", t.Tok.String())
+		}
+	case *ast.DeclStmt, *ast.EmptyStmt:
 	default:
 		s.add("stmt:%T", st)
 	}
@@ -219,6 +260,18 @@ func exprStr(e ast.Expr) string {
 		return exprStr(t.X) + "[]"
 	case *ast.TypeAssertExpr:
 		return exprStr(t.X) + ".()"
+	case *ast.CompositeLit:
+		es := make([]string, len(t.Elts))
+		for i, e := range t.Elts {
+			es[i] = exprStr(e)
+		}
+		return exprStr(t.Type) + "{" + strings.Join(es, ",") + "}"
+	case *ast.KeyValueExpr:
+		return exprStr(t.Key) + ":" + exprStr(t.Value)
+	case *ast.MapType:
+		return "map[" + exprStr(t.Key) + "]" + exprStr(t.Value)
+	case *ast.ArrayType:
+		return "[]" + exprStr(t.Elt)
 	}
 	return "_"
 }
@@ -229,19 +282,33 @@ func rangeStr(e ast.Expr) string { return exprStr(e) }
 func skeleton(dir string) (string, error) {
 	fset := token.NewFileSet()
 	var lines []string
-	for _, f := range []string{"extract.go", "keep.go", "check.go"} {
+	for _, f := range []string{"extract.go", "keep.go", "check.go", "geom.go", "tags.go"} {
 		af, err := parser.ParseFile(fset, filepath.Join(dir, f), nil, 0)
 		if err != nil {
 			return "", err
 		}
 		for _, d := range af.Decls {
 			fd, ok := d.(*ast.FuncDecl)
-			if !ok || !skelFuncs[fd.Name.Name] {
+			if !ok {
 				continue
 			}
-			s := &skel{}
+			name := fd.Name.Name
+			if f == "tags.go" || f == "geom.go" {
+				if fd.Recv != nil && len(fd.Recv.List) == 1 {
+					name = strings.TrimPrefix(exprStr(fd.Recv.List[0].Type), "*") + "." + name
+				}
+				if name == "Data.Geom" || name == "Tags.Less" {
+					name = fd.Name.Name
+				}
+				if !skelAllCalls[name] {
+					continue
+				}
+			} else if !skelFuncs[name] && !skelAllCalls[name] {
+				continue
+			}
+			s := &skel{all: skelAllCalls[name] && !skelFuncs[name]}
 			s.block(fd.Body)
-			lines = append(lines, fd.Name.Name+": "+strings.Join(s.ev, " "))
+			lines = append(lines, name+": "+strings.Join(s.ev, " "))
 		}
 	}
 	sort.Strings(lines)
